@@ -28,6 +28,7 @@ theorem new_eq (p : Nat) (m : F) :
       if p = 0 then .err .InvalidParameter
       else if p * 8 ≤ isizeMax then .ok (fresh p m) else .panic := by
   unfold new
+  try simp only [gen_helper]
   rw [AverageTrueRange.new_eq, Minimum.new_eq, Maximum.new_eq]
   by_cases h0 : p = 0
   · simp [h0, bind, Res.bind]
